@@ -104,7 +104,7 @@ def run(ctx):
                 first = (d[:120], mi[:300], m[:300])
     ctx.oblige("correspondence c14: every key / value / table / array-of-tables span of the model's span-recording parser = the implementation's", ndis == 0, f"{ndis} disagreements; shortest: {first}")
     # ---- Spanned<T> targets through serde: Model/DeSpanned.lean = the three routes (stream c14s), plus direct oracles
-    extra_props(ctx, ["C14Spanned", "C14SpannedFull"])
+    extra_props(ctx, ["C14Spanned", "C14SpannedFull", "C14SpannedUniform"])
     from props import c14sp
     sstats, sdis, sbroken = c14sp.run_spanned(ctx, tvh)
     for name, fails in sbroken.items():
